@@ -40,7 +40,7 @@ import re
 from . import extract, rtok
 from .extract import LostAnchor, Piece
 
-ALWAYS_STRIP = ['tracing', 'derive', 'builder', 'serde', 'allow', 'doc', 'default']
+ALWAYS_STRIP = ['tracing', 'derive', 'builder', 'serde', 'allow', 'doc', 'default', 'instrument']
 DIRECTIVE = re.compile(r'^\s*//@@\s*(\w+\??)\s*:?\s*(.*)$')
 TAG = re.compile(r'//#\s*([\w.\-]+)')
 
@@ -256,6 +256,8 @@ def _gen_item(repo, blk, gen):
             k += 1
         if not any(st[q].text == 'pub' for q in range(i, k)):
             p.insert_before(k, 'pub ', 'make_pub')
+    if blk.get('attr'):
+        p.insert_before(i, blk['attr'] + '\n', 'attr')
     if kind == 'fn':
         k, pc, arrow, body = p.fn_parts()
         if a.get('ret'):
@@ -492,7 +494,7 @@ def generate(repo, template_text, variables=None):
             elif d == 'after_all':
                 frm, to = re.split(r'(?<!<)==>', rest, maxsplit=1)
                 blk.setdefault('after_all', []).append((frm.strip(), to.strip()))
-            elif d in ('strip', 'keep_attrs', 'from', 'through', 'through_stmt', 'from_nth'):
+            elif d in ('strip', 'keep_attrs', 'from', 'through', 'through_stmt', 'from_nth', 'attr'):
                 blk[d] = rest
             elif d in ('through_close', 'inner', 'make_pub', 'through_block', 'until_enclosing_close'):
                 blk[d] = True
